@@ -671,7 +671,7 @@ theorem manyrows_refines (R : Refines O good abs) (sss : Bool) (yp : Option Nat)
       rcases hx : manyLoop O sss h u.strat n (O.size s + 1) [] u.seen s with ⟨o, seen', s1⟩
       rw [hx] at hl
       have hg1 : good s1 := hl.2
-      cases o <;> simp [hg1]
+      cases o <;> simp [manyFin, hg1]
     | none =>
       simp only
       split
@@ -682,7 +682,7 @@ theorem manyrows_refines (R : Refines O good abs) (sss : Bool) (yp : Option Nat)
           (O.size s + 1) [] u.seen s with ⟨o, seen', s1⟩
         rw [hx] at hl
         have hg1 : good s1 := hl.2
-        cases o <;> simp [hg1]
+        cases o <;> simp [manyFin, hg1]
       · have hp := R.fetchmany' none s hg (by simp)
         rw [hp.1]
         rcases hx : O.fetchmany none s with ⟨o, s1⟩
@@ -702,7 +702,7 @@ theorem manyrows_refines (R : Refines O good abs) (sss : Bool) (yp : Option Nat)
             rcases hx2 : manyLoop O sss h u.strat rows.length (O.size s1 + 1) out seen' s1 with ⟨o2, seen2, s2⟩
             rw [hx2] at hl
             have hg2 : good s2 := hl.2
-            cases o2 <;> simp [hg2]
+            cases o2 <;> simp [manyFin, hg2]
 
 theorem allrows_refines (R : Refines O good abs) (sss : Bool) (h : Handle) (s : σ) (hg : good s) :
     allrows Plain.ops sss h (abs s) =
